@@ -1600,3 +1600,24 @@ def chars_count(ex, args, callee):
     # a UTF-8 string of len bytes has between ceil(len/4) and len characters
     ex.assume(z3.And(z3.ULE(n, ln), z3.UGE(n * 4, ln)))
     return Int(n, 'usize')
+
+
+@stub('Option::or')
+def option_or(ex, args, callee):
+    return args[0] if is_variant(args[0], 'Some') else args[1]
+
+
+@stub('Option::or_else')
+def option_or_else(ex, args, callee):
+    return args[0] if is_variant(args[0], 'Some') else call_callable(ex, args[1], [])
+
+
+@stub('Option::and')
+def option_and(ex, args, callee):
+    return args[1] if is_variant(args[0], 'Some') else NONE
+
+
+@stub('Option::xor')
+def option_xor(ex, args, callee):
+    a, b = is_variant(args[0], 'Some'), is_variant(args[1], 'Some')
+    return args[0] if a and not b else (args[1] if b and not a else NONE)
